@@ -254,3 +254,32 @@ package transport
 //@ modifies entries(c.tracked), gTmpRemovedFrom, gTmpRemovedCalls, held(c.mu)
 //@ loop 1 invariant c.tracked != nil && (forall k string :: k in tracked && !visited(k) ==> k in c.tracked && c.tracked[k] == tracked[k])
 //@ loop 1 step !(key in c.tracked) && gTmpRemovedFrom == td.first.From
+
+// ---------------------------------------------------------------- C13: the sender side of a TCP frame
+// What writeMessage puts on the wire is what readMessage checks: the 18 header bytes announce EXACTLY the payload's length
+// and (unencrypted) its CRC-32 and carry the caller's method; they go out as the second write, right behind the magic
+// number; the payload follows in full -- magic (2) + header (18) + len(buf) bytes in total -- in consecutive pieces that never
+// leave the buffer (bounds obligations of the chunked write).
+// gCW / gCWptr / gCWlen / gCWbytes: number of writes handed to the connection, where each started, how long it was, total bytes
+//@ ghost var gCW int
+//@ ghost var gCWptr intmap
+//@ ghost var gCWlen intmap
+//@ ghost var gCWbytes int
+//@ extern net (c Conn) Write
+//@ modifies gCW, gCWptr, gCWlen, gCWbytes
+//@ ghostset gCW := old(gCW) + 1
+//@ ghostset gCWptr := store(old(gCWptr), old(gCW) + 1, ptr(b))
+//@ ghostset gCWlen := store(old(gCWlen), old(gCW) + 1, len(b))
+//@ ghostset gCWbytes := old(gCWbytes) + len(b)
+//@ extern net (c Conn) SetWriteDeadline
+//@ func writeMessage [C13]
+//@ noframe
+//@ requires len(headerBuf) >= 18 && recvBufSize > 0 && recvBufSize < 4611686018427387904 && len(buf) < 4611686018427387904
+//@ ensures result == nil ==> be64(headerBuf, 2) == len(buf) && be16(headerBuf, 0) == header.method
+//@ ensures result == nil && !encrypted ==> be32(headerBuf, 14) == uf("crc32", ptr(buf), len(buf))
+//@ ensures result == nil ==> gCWptr[old(gCW) + 2] == ptr(headerBuf) && gCWlen[old(gCW) + 2] == 18
+//@ ensures result == nil ==> gCWbytes == old(gCWbytes) + 20 + len(buf)
+//@ loop 1 invariant 0 <= sent && sent <= len(buf) && bufSize > 0 && bufSize <= recvBufSize && gCW >= old(gCW) + 2 && gCWbytes == old(gCWbytes) + 20 + sent
+//@ loop 1 invariant gCWptr[old(gCW) + 2] == ptr(headerBuf) && gCWlen[old(gCW) + 2] == 18
+//@ loop 1 invariant gCW > old(gCW) + 2 ==> gCWptr[gCW] + gCWlen[gCW] == ptr(buf) + sent
+//@ loop 1 invariant sent > 0 ==> gCW > old(gCW) + 2
